@@ -72,7 +72,7 @@ func Main(args []string) {
 	if tier == "thorough" {
 		plans = []plan{
 			{"fresh host (no git-bug data), thorough alphabet", Params{Init: "fresh", Alphabet: "thorough", GitBug: bin}, 5, 11 * time.Minute},
-			{"seeded host (identity, one pushed bug, peer in sync), thorough alphabet", Params{Init: "seeded", Alphabet: "thorough", GitBug: bin}, 5, 11 * time.Minute},
+			{"seeded host (identity, one pushed bug, peer in sync), thorough alphabet", Params{Init: "seeded", Alphabet: "thorough", GitBug: bin}, 4, 12 * time.Minute},
 		}
 	} else {
 		plans = []plan{
